@@ -188,13 +188,30 @@ def mpu_sys(regs, dregion=None):
 
 # ------------------------------------------------------------------ instruction word sources
 
+# architected system registers as (coprocessor, opc1, CRn, CRm, opc2): a random MCR/MRC almost never names one of them
+SYSREGS = [(15, 0, 0, 0, 0), (15, 0, 0, 0, 4), (15, 0, 0, 0, 5), (15, 0, 1, 0, 0), (15, 0, 1, 0, 1), (15, 0, 1, 0, 2), (15, 0, 1, 1, 0), (15, 0, 1, 1, 1), (15, 0, 1, 1, 2),
+           (15, 0, 2, 0, 0), (15, 0, 2, 0, 1), (15, 0, 2, 0, 2), (15, 0, 3, 0, 0), (15, 0, 5, 0, 0), (15, 0, 5, 0, 1), (15, 0, 6, 0, 0), (15, 0, 6, 0, 2),
+           (15, 0, 6, 1, 0), (15, 0, 6, 1, 2), (15, 0, 6, 1, 4), (15, 0, 6, 2, 0), (15, 0, 7, 5, 0), (15, 0, 7, 10, 4), (15, 0, 8, 7, 0), (15, 0, 10, 2, 0), (15, 0, 10, 2, 1),
+           (15, 0, 12, 0, 0), (15, 0, 12, 0, 1), (15, 0, 12, 1, 0), (15, 0, 13, 0, 0), (15, 0, 13, 0, 1), (15, 0, 13, 0, 2), (15, 0, 13, 0, 3), (15, 0, 13, 0, 4),
+           (15, 4, 1, 0, 0), (15, 4, 1, 1, 0), (15, 4, 1, 1, 2), (15, 4, 1, 1, 3), (15, 4, 2, 0, 2), (15, 4, 2, 1, 2), (15, 4, 5, 2, 0), (15, 4, 6, 0, 0), (15, 4, 6, 0, 4),
+           (15, 4, 12, 0, 0), (15, 4, 13, 0, 2),
+           (14, 6, 0, 0, 0), (14, 6, 1, 0, 0), (14, 7, 0, 0, 0), (14, 7, 1, 0, 0), (14, 7, 2, 0, 0), (14, 0, 0, 0, 0), (14, 0, 0, 1, 0), (14, 0, 1, 0, 0), (14, 1, 0, 0, 0),
+           (10, 7, 0, 0, 0), (10, 7, 1, 0, 0), (10, 7, 8, 0, 0)]
+
+
+def sysreg_word(rng, cond=14):
+    """MCR / MRC naming an architected system register (same bit pattern in ARM and, with cond = 0b1110, in Thumb)"""
+    cp, o1, crn, crm, o2 = rng.choice(SYSREGS)
+    return cond << 28 | 0x0E000010 | o1 << 21 | rng.getrandbits(1) << 20 | crn << 16 | rng.randrange(0, 13) << 12 | cp << 8 | o2 << 5 | crm
+
+
 def vocab_words(rng, thumb):
     """one random member of the vocabulary with random fields (a valid, meaningful instruction)"""
     r = lambda: rng.randrange(0, 13)
     lo = lambda: rng.randrange(0, 8)
     if not thumb:
         c = rng.choice([AL_OR(rng)])
-        k = rng.randrange(40)
+        k = rng.randrange(1 << 16)
         tab = [
             lambda: A.dp_imm(rng.choice(list(asm.DP)), r(), r(), rng.getrandbits(8), s=rng.getrandbits(1), rot=rng.getrandbits(4), cond=c),
             lambda: A.dp_reg(rng.choice(list(asm.DP)), r(), r(), r(), s=rng.getrandbits(1), cond=c, shift=rng.getrandbits(5), stype=rng.getrandbits(2)),
@@ -218,9 +235,10 @@ def vocab_words(rng, thumb):
             lambda: A.ldc(rng.randrange(16), rng.getrandbits(4), r(), rng.getrandbits(8), rng.getrandbits(1), rng.getrandbits(1), rng.getrandbits(1), rng.getrandbits(1), cond=c),
             lambda: A.mcrr(rng.randrange(16), rng.getrandbits(4), r(), r(), rng.getrandbits(4), rng.getrandbits(1), cond=c),
             lambda: A.movw(r(), rng.getrandbits(16), cond=c), lambda: A.movt(r(), rng.getrandbits(16), cond=c),
+            lambda: sysreg_word(rng, c), lambda: sysreg_word(rng, c),
         ]
         return tab[k % len(tab)]()
-    k = rng.randrange(60)
+    k = rng.randrange(1 << 16)
     tab = [
         lambda: T.mov_imm(lo(), rng.getrandbits(8)), lambda: T.cmp_imm(lo(), rng.getrandbits(8)), lambda: T.add_imm8(lo(), rng.getrandbits(8)),
         lambda: T.sub_imm8(lo(), rng.getrandbits(8)), lambda: T.add_imm3(lo(), lo(), rng.getrandbits(3)), lambda: T.add_reg(lo(), lo(), lo()),
@@ -243,6 +261,7 @@ def vocab_words(rng, thumb):
         lambda: T.mcr(rng.randrange(16), rng.getrandbits(3), r(), rng.getrandbits(4), rng.getrandbits(4), rng.getrandbits(3)),
         lambda: T.mrc(rng.randrange(16), rng.getrandbits(3), r(), rng.getrandbits(4), rng.getrandbits(4), rng.getrandbits(3)),
         lambda: T.movw(r(), rng.getrandbits(16)), lambda: T.movt(r(), rng.getrandbits(16)),
+        lambda: sysreg_word(rng), lambda: sysreg_word(rng),
     ]
     return tab[k % len(tab)]()
 
